@@ -1,4 +1,4 @@
-import Tibc.LC.Eth
+import Tibc.Lemmas.EthChain
 /-
   C18 — ETH client accepts only valid children of known headers, keeps one chain.
   PROPERTY THEOREMS ONLY.
@@ -137,6 +137,122 @@ theorem difficulty_at_least_minimum (t : Nat) (p : Hdr) : calcDifficulty t p ≥
     2 ^ ((if p.number ≥ bombDelayFromParent then p.number - bombDelayFromParent else 0) / 100000 - 2) else 0 : Nat) = bomb
   split <;> omega
 
+/-! ### one chain -/
+
+/-- the client as `CreateClient` / `Initialize` leave it: the trusted header indexed, its consensus state exposed -/
+def created (g : Hdr) (period : Nat) : Client :=
+  { latest := g, period := period, heights := [g.number],
+    idx := fun k => if k = (g.hash, g.number) then some g else none,
+    rootMain := fun k => if k = (g.root, g.number) then some (g.hash, g.number) else none,
+    cons := fun n => if n = g.number then some (consOf g) else none }
+
+theorem created_inv (g : Hdr) (period : Nat) : Inv (created g period) g := by
+  have hidx : ∀ k n x, (created g period).idx (k, n) = some x → x = g ∧ k = g.hash ∧ n = g.number := by
+    intro k n x hx
+    simp only [created] at hx
+    split at hx
+    · rename_i heq
+      simp only [Prod.mk.injEq] at heq
+      exact ⟨by simpa using hx.symm, heq.1, heq.2⟩
+    · cases hx
+  refine ⟨?_, ?_, ?_, ?_, ?_, ?_⟩
+  · intro k n x hx
+    obtain ⟨rfl, h2, h3⟩ := hidx k n x hx
+    exact ⟨h2.symm, h3.symm⟩
+  · simp [Stored, created]
+  · intro k n x hx
+    obtain ⟨rfl, _, _⟩ := hidx k n x hx
+    simp [created]
+  · intro k n x k' n' y hx hy _
+    obtain ⟨rfl, _, _⟩ := hidx k n x hx
+    obtain ⟨rfl, _, _⟩ := hidx k' n' y hy
+    rfl
+  · intro k n x hx
+    obtain ⟨rfl, _, _⟩ := hidx k n x hx
+    exact Anc.refl _
+  · intro a ha
+    cases ha with
+    | refl => simp [created]
+    | step hp _ =>
+      exfalso
+      simp only [parentOf, created] at hp
+      by_cases h0 : g.number = 0
+      · simp [h0] at hp
+      · have hb : (g.number == 0) = false := by simpa using h0
+        have hne : ¬ ((g.parent, g.number - 1) = (g.hash, g.number)) := by
+          intro heq
+          simp only [Prod.mk.injEq] at heq
+          omega
+        simp [hb, hne] at hp
+
+/-- after validity check and (idle) pruning, `CheckHeaderAndUpdateState` is `applyHeader` -/
+theorem check_eq_apply (c : Client) (h : Hdr) (now : Nat) (hc : (c.cons c.latest.number).isSome = true)
+    (ha : accepts c h now = true) (hp : prune c now = some c) :
+    checkHeaderAndUpdate c h now = applyHeader c h := by
+  unfold checkHeaderAndUpdate applyHeader
+  have : (c.cons c.latest.number).isNone = false := by
+    cases hcc : c.cons c.latest.number with
+    | none => rw [hcc] at hc; cases hc
+    | some _ => rfl
+  simp only [this, Bool.false_eq_true, if_false, ha, Bool.not_true, hp]
+  cases (if (c.latest.hash == h.parent) = true then some (index c h) else restrict (index c h) c.latest h) <;> rfl
+
+/-- **One accepted header keeps one chain** (a step in which no consensus state is pruned; the
+    header's hash, and its state root among the stored headers of its height, are new — hash
+    collision freedom, and see F-C18b for equal roots): the update succeeds, and afterwards the
+    consensus states exposed for all heights up to the new latest header are its ancestors'. -/
+theorem one_chain_step (c : Client) (b h : Hdr) (now : Nat) (hi : Inv c b)
+    (ha : accepts c h now = true) (hf : Fresh c h) (hp : prune c now = some c) :
+    ∃ c', checkHeaderAndUpdate c h now = some c' ∧ Inv c' b ∧ c'.latest = h := by
+  have hc : (c.cons c.latest.number).isSome = true := by rw [hi.main c.latest (Anc.refl _)]; rfl
+  rw [check_eq_apply c h now hc ha hp]
+  obtain ⟨_, _, p, h0, hpp, _⟩ := (eth_accepts_iff c h now).mp ha
+  have hpar : parentOf c h = some p := by
+    unfold parentOf
+    have : (h.number == 0) = false := by simpa using h0
+    simp [this, hpp]
+  exact applyHeader_inv hi hf hpar
+
+/-- submit a list of (header, block time) pairs; refused headers leave the client unchanged -/
+def submitAll (c : Client) : List (Hdr × Nat) → Client
+  | [] => c
+  | (h, now) :: rest => submitAll ((checkHeaderAndUpdate c h now).getD c) rest
+
+/-- along the history no consensus state gets pruned, and every accepted header is fresh -/
+def Admissible : Client → List (Hdr × Nat) → Prop
+  | _, [] => True
+  | c, (h, now) :: rest =>
+    prune c now = some c ∧ (accepts c h now = true → Fresh c h) ∧ Admissible ((checkHeaderAndUpdate c h now).getD c) rest
+
+/-- **At all times one chain.** From the client's creation, over every history of submitted
+    headers — valid or not, extending the latest header or any stored header, in any order, forks
+    of any depth — the consensus states exposed for heights up to the latest header are exactly
+    those of that header's ancestors (hence one parent-linked chain ending at it). -/
+theorem one_chain (g : Hdr) (period : Nat) (steps : List (Hdr × Nat))
+    (hadm : Admissible (created g period) steps) :
+    let c := submitAll (created g period) steps
+    ∀ a, Anc c c.latest a → c.cons a.number = some (consOf a) := by
+  have gen : ∀ (steps : List (Hdr × Nat)) (c : Client), Inv c g → Admissible c steps → Inv (submitAll c steps) g := by
+    intro steps
+    induction steps with
+    | nil => intro c hi _; exact hi
+    | cons s rest ih =>
+      intro c hi hadm
+      obtain ⟨h, now⟩ := s
+      simp only [Admissible] at hadm
+      simp only [submitAll]
+      apply ih _ _ hadm.2.2
+      cases hacc : accepts c h now with
+      | true =>
+        obtain ⟨c', hc', hi', _⟩ := one_chain_step c g h now hi hacc (hadm.2.1 hacc) hadm.1
+        rw [hc']; exact hi'
+      | false =>
+        have : checkHeaderAndUpdate c h now = none := by
+          unfold checkHeaderAndUpdate
+          simp [hacc]
+        rw [this]; exact hi
+  exact (gen steps _ (created_inv g period) hadm).main
+
 /-! ### one chain: the root-index weakness (known finding F-C18b), evaluated on the model -/
 
 def mk (n : Nat) (hash parent root : String) (time : Nat) : Hdr :=
@@ -151,10 +267,7 @@ def c0 : Client :=
     cons := fun n => if n == 100 then some (consOf G) else none }
 
 /-- apply updates whose validity is not at stake here (the rewrite logic is) -/
-def force (c : Client) (h : Hdr) : Option Client :=
-  let c2 := index c h
-  let c3 := if c.latest.hash == h.parent then some c2 else restrict c2 c.latest h
-  c3.map (fun c3 => { c3 with latest := h, cons := upd c3.cons h.number (some (consOf h)), heights := insertHeight h.number c3.heights })
+def force (c : Client) (h : Hdr) : Option Client := applyHeader c h
 
 def scenario : Option Client := do
   let c ← force c0 (mk 101 "A1" "G" "rA1" 1001)
